@@ -3,5 +3,6 @@ CONSTANTS
   Proc = {1, 2, 3}
   Str = {"a", "b"}
   LockedS2S = TRUE
-INVARIANTS Exclusion NoRace LockDiscipline Interned
+  SplitPublish = FALSE
+INVARIANTS Exclusion NoRace LockDiscipline Interned ConsistentWhenFree
 CHECK_DEADLOCK FALSE
